@@ -99,6 +99,28 @@ def encode_gridded(g):
     return b''.join(out), {'header_end': header_end, 'step_ends': ends}
 
 
+def gridded_to_little_endian(buf):
+    """The same gridded file as a little-endian machine writes it: every 4-byte
+    number (record markers included) byte-swapped, character words unchanged."""
+    def swap(b):
+        return np.frombuffer(b, dtype='>u4').astype('<u4').tobytes()
+    out = []
+    for i, (off, p) in enumerate(walk(buf)):
+        if i == 0:
+            body = p[:280] + swap(p[280:])
+        elif i in (1, 2):
+            body = swap(p)
+        elif i == 3:
+            body = p
+        elif len(p) == 16:
+            body = swap(p)                       # time record
+        else:
+            body = swap(p[:4]) + p[4:44] + swap(p[44:])
+        m = struct.pack('<i', len(p))
+        out.append(m + body + m)
+    return b''.join(out)
+
+
 def write_gridded(path, g):
     b, meta = encode_gridded(g)
     with open(path, 'wb') as f:
